@@ -702,23 +702,33 @@ func ladderWorker(sub string) {
 	var tier string
 	var from, to int
 	parts := strings.Split(sub, ":")
-	if len(parts) != 4 {
+	if len(parts) != 4 && len(parts) != 5 {
 		fmt.Println("BAD selector", sub)
 		os.Exit(3)
 	}
 	tier = parts[1]
 	fmt.Sscan(parts[2], &from)
 	fmt.Sscan(parts[3], &to)
+	stride := 1
+	if len(parts) == 5 {
+		fmt.Sscan(parts[4], &stride)
+	}
 	cases := ladderCases(tier == "thorough")
 	w := bufio.NewWriter(os.Stdout)
-	for i := from; i < to && i < len(cases); i++ {
+	for i := from; i < to && i < len(cases); i += stride {
 		c := cases[i]
 		fmt.Fprintf(w, "START %d\n", i)
 		w.Flush()
+		if os.Getenv("VERIF_C37_SELFTEST_CRASH_AT") == fmt.Sprint(i) {
+			// self-test of the crash attribution: a real, unrecoverable stack overflow
+			var f func(int) int
+			f = func(x int) int { return f(x+1) + 1 }
+			f(0)
+		}
 		input, _ := ladderInput(c.construct, c.n)
 		// the checker is quadratic in the nesting depth for several constructs:
-		// rungs above 2^12 exercise lexer and parser only (stated in the rule)
-		fs, class, dc := frontOnceOpt(input, fullConfig, true, c.n <= 1<<12)
+		// rungs above 2^11 exercise lexer and parser only (stated in the rule)
+		fs, class, dc := frontOnceOpt(input, fullConfig, true, c.n <= 1<<11)
 		r := ladderResult{Index: i, Class: class, DontCare: dc}
 		for _, f := range fs {
 			r.Sigs = append(r.Sigs, f.sig)
@@ -735,8 +745,13 @@ func ladderWorker(sub string) {
 // runLadderRange spawns a worker for [from,to); returns results and, if the
 // worker died, the index it was working on plus the tail of its stderr.
 func runLadderRange(tier string, from, to int) (results []ladderResult, crashed int, stderrTail string, err error) {
+	return runLadderStride(tier, from, to, 1)
+}
+
+// runLadderStride runs cases from, from+stride, ... < to in one worker process.
+func runLadderStride(tier string, from, to, stride int) (results []ladderResult, crashed int, stderrTail string, err error) {
 	crashed = -1
-	cmd := exec.Command(os.Args[0], "C37", "--tier", tier, "--sub", fmt.Sprintf("ladder:%s:%d:%d", tier, from, to))
+	cmd := exec.Command(os.Args[0], "C37", "--tier", tier, "--sub", fmt.Sprintf("ladder:%s:%d:%d:%d", tier, from, to, stride))
 	cmd.Env = append(os.Environ(), "GOMAXPROCS=2", "GOTRACEBACK=single")
 	var stdout, stderr bytes.Buffer
 	cmd.Stdout = &stdout
@@ -1147,21 +1162,19 @@ func runC37(env *mc.Env) {
 		tier := env.Tier
 		cases := ladderCases(thorough)
 		env.R.Set("ladder_cases", len(cases))
-		per := (len(cases) + 7) / 8 // 8 worker processes; a crash restarts the range after the crashing case
+		// 16 worker processes, cases dealt round-robin (the big rungs of a construct are
+		// spread over the workers); a crash restarts the worker after the crashing case
+		const stride = 16
 		var ranges [][2]int
-		for from := 0; from < len(cases); from += per {
-			to := from + per
-			if to > len(cases) {
-				to = len(cases)
-			}
-			ranges = append(ranges, [2]int{from, to})
+		for k := 0; k < stride && k < len(cases); k++ {
+			ranges = append(ranges, [2]int{k, len(cases)})
 		}
 		mc.ParallelFor(env, len(ranges), func(ri int) {
 			from, to := ranges[ri][0], ranges[ri][1]
 			classes := map[string]int64{}
 			var dc int64
 			for from < to {
-				results, crashed, stderrTail, err := runLadderRange(tier, from, to)
+				results, crashed, stderrTail, err := runLadderStride(tier, from, to, stride)
 				for _, r := range results {
 					c := cases[r.Index]
 					classes["ladder:"+r.Class]++
@@ -1186,7 +1199,7 @@ func runC37(env *mc.Env) {
 				violation(env, "crash:"+crashClass(stderrTail)+"|"+crashSite(stderrTail)+"|ladder:"+c.construct,
 					c37Case{Kind: "ladder", Construct: c.construct, N: c.n},
 					fmt.Sprintf("worker process died on %s with n=%d (%d bytes of input): %s", c.construct, c.n, len(mustLadder(c)), trunc(stderrTail, 600)))
-				from = crashed + 1
+				from = crashed + stride
 			}
 			flushClasses(env, classes, dc)
 		})
@@ -1315,7 +1328,7 @@ func replayC37(env *mc.Env, raw json.RawMessage) (bool, string) {
 func init() {
 	mc.Register(&mc.Check{
 		ID:   "C37",
-		Rule: "lexer.Lex + parser.ParseProgram (+ sema Checker.Check when the parse succeeds) on (a) every byte string of length <= 2 and every sequence of <= 3 tokens [<= 4 over the 62 non-keyword tokens, thorough] over the full token alphabet (every lexer token type, every keyword, literal / comment / string-template fragments), space-separated and adjacent; (b) every single edit (delete / duplicate / replace-by-each-alphabet-token at every token, truncate at every byte, insert each of {80, C0, FF, ED A0 80, NUL, \\(, /*, \"} at every byte) of every program of the edit corpus; (c) nesting ladders n = 1,2,4..2^14 [2^18] for ~95 nesting / repetition constructs (checker only up to 2^12: it is quadratic in nesting depth), run in worker subprocesses so that an unrecoverable crash is attributed to its input; (d) all ordered pairs of 36 inputs lexed back-to-back through the pooled lexer (previous stream consumed fully / 0 / 1 / 2 tokens) vs lexed fresh, and parsed back-to-back vs parsed first. Oracle: no panic, only user errors; every token and error position inside the input; tokens contiguous from 0 to len (up to the first error token); token line = 1 + newlines before the offset and column = distance from line start in one convention (bytes or runes) per input; history-independence. non-trivial = input that reached the checker / ladder rungs with n >= 32 / pool pairs where the pooled lexer object was observably reused",
+		Rule: "lexer.Lex + parser.ParseProgram (+ sema Checker.Check when the parse succeeds) on (a) every byte string of length <= 2 and every sequence of <= 3 tokens [<= 4 over the 62 non-keyword tokens, thorough] over the full token alphabet (every lexer token type, every keyword, literal / comment / string-template fragments), space-separated and adjacent; (b) every single edit (delete / duplicate / replace-by-each-alphabet-token at every token, truncate at every byte, insert each of {80, C0, FF, ED A0 80, NUL, \\(, /*, \"} at every byte) of every program of the edit corpus; (c) nesting ladders n = 1,2,4..2^14 [2^18] for ~95 nesting / repetition constructs (checker only up to 2^11: it is quadratic in nesting depth), run in worker subprocesses so that an unrecoverable crash is attributed to its input; (d) all ordered pairs of 36 inputs lexed back-to-back through the pooled lexer (previous stream consumed fully / 0 / 1 / 2 tokens) vs lexed fresh, and parsed back-to-back vs parsed first. Oracle: no panic, only user errors; every token and error position inside the input; tokens contiguous from 0 to len (up to the first error token); token line = 1 + newlines before the offset and column = distance from line start in one convention (bytes or runes) per input; history-independence. non-trivial = input that reached the checker / ladder rungs with n >= 32 / pool pairs where the pooled lexer object was observably reused",
 		Assumptions: []string{
 			"checker run without a standard library (base activations only), access check mode 'not specified unrestricted', native/static declarations allowed",
 			"error positions are read through StartPosition/EndPosition of each reported error",
